@@ -55,6 +55,7 @@ type Item struct {
 	M    int    `json:"m,omitempty"`
 	Tag  string `json:"tag,omitempty"`
 	Self bool   `json:"self,omitempty"`
+	Sp   int    `json:"sp,omitempty"` // once: spelling of the directive, index into spellings
 	N    int    `json:"n,omitempty"`
 	Cond bool   `json:"cond,omitempty"`
 	Eq   int    `json:"eq,omitempty"`
@@ -147,6 +148,11 @@ func indexOf(l []string, s string) int {
 // loop lengths drawn for generated loops (empty loops are a class of their own, but rarer)
 var loopLens = []int{0, 1, 2, 2, 3, 3}
 
+// spellings of the directive in the source. HTML attribute names are case-insensitive (the HTML
+// parser lower-cases them) and an empty value is the same as no value, so all of them mark the
+// element alike; the model does not look at Sp.
+var spellings = []string{`v-once`, `V-Once`, `V-ONCE`, `v-Once`, `v-once=""`}
+
 var leafTags = []string{"style", "b", "script", "span", "i"}
 var boxTags = []string{"div", "section"}
 
@@ -169,9 +175,10 @@ func src(items []Item, sb *strings.Builder) {
 	for _, it := range items {
 		switch it.K {
 		case "once":
-			attrs := fmt.Sprintf(`v-once data-m="o%d"`, it.M)
+			sp := spellings[it.Sp%len(spellings)]
+			attrs := fmt.Sprintf(`%s data-m="o%d"`, sp, it.M)
 			if it.M%2 == 1 {
-				attrs = fmt.Sprintf(`data-m="o%d" v-once`, it.M)
+				attrs = fmt.Sprintf(`data-m="o%d" %s`, it.M, sp)
 			}
 			if it.Self {
 				attrs += fmt.Sprintf(` v-for="x in n%d"`, it.N)
@@ -280,6 +287,9 @@ func validate(c Case) error {
 				seenM[it.M] = true
 				if indexOf(leafTags, it.Tag) < 0 && !isBox(it.Tag) {
 					return fmt.Errorf("bad tag %q", it.Tag)
+				}
+				if it.Sp < 0 || it.Sp >= len(spellings) {
+					return fmt.Errorf("bad spelling %d", it.Sp)
 				}
 				if head && it.Tag != "style" && it.Tag != "script" {
 					return fmt.Errorf("only style/script in <head>")
@@ -572,9 +582,10 @@ func where(c *Case, m int) string {
 		return nil
 	}
 	desc := func(it *Item, file string) string {
-		s := fmt.Sprintf("<%s v-once> in %s", it.Tag, file)
+		sp := spellings[it.Sp%len(spellings)]
+		s := fmt.Sprintf("<%s %s> in %s", it.Tag, sp, file)
 		if it.Self {
-			s = fmt.Sprintf("<%s v-once v-for=\"x in n%d\"> in %s", it.Tag, it.N, file)
+			s = fmt.Sprintf("<%s %s v-for=\"x in n%d\"> in %s", it.Tag, sp, it.N, file)
 		}
 		return s
 	}
@@ -668,7 +679,7 @@ func check(c Case) error {
 			return fmt.Errorf("%s: counts of marked elements agree but the marker outline differs\nwant %s\ngot  %s\noutput:\n%s", at, exp.outline, o, clip(out))
 		}
 		// the internal bookkeeping attributes are not part of the page
-		if strings.Contains(out, "v-once") {
+		if strings.Contains(strings.ToLower(out), "v-once") {
 			return fmt.Errorf("%s: output still contains a v-once attribute:\n%s", at, clip(out))
 		}
 	}
@@ -696,6 +707,7 @@ func classify(c Case) (bool, []string) {
 				distinct++
 				set["once@"+kind] = true
 				set["tag="+it.Tag] = true
+				set["spelling="+spellings[it.Sp%len(spellings)]] = true
 				if inLoop {
 					set["once@"+kind+"-in-loop"] = true
 				}
@@ -857,6 +869,7 @@ func classify(c Case) (bool, []string) {
 
 type uni struct {
 	fill  map[string]bool
+	sp    int // spelling of the first marked element; the following ones take the next spellings
 	next  int
 	kinds int
 }
@@ -869,7 +882,7 @@ func (u *uni) slot(name string, tags []string) []Item {
 		return nil
 	}
 	u.kinds++
-	return []Item{{K: "once", M: u.id(), Tag: tags[u.kinds%len(tags)]}}
+	return []Item{{K: "once", M: u.id(), Tag: tags[u.kinds%len(tags)], Sp: (u.sp + u.kinds - 1) % len(spellings)}}
 }
 
 var pageSlots = []string{"s0", "s1", "s2", "s3", "s4", "s5", "q0", "q1", "a0", "a1", "a2", "b0", "c0"}
@@ -879,6 +892,7 @@ var docSlots = []string{"h0", "la"}
 type uparams struct {
 	nA, nB, kA int
 	chain      string // none | l1 | l1-l2 | base
+	sp         int    // spelling of the first marked element (see uni.sp)
 }
 
 func universeSlots(p uparams) []string {
@@ -896,7 +910,7 @@ func universeSlots(p uparams) []string {
 }
 
 func universe(fill []string, p uparams) Case {
-	u := &uni{fill: map[string]bool{}}
+	u := &uni{fill: map[string]bool{}, sp: p.sp}
 	for _, f := range fill {
 		u.fill[f] = true
 	}
@@ -912,7 +926,7 @@ func universe(fill []string, p uparams) Case {
 	P = append(P, inc("B"))
 	if u.fill["s2"] {
 		u.kinds++
-		P = append(P, Item{K: "once", M: u.id(), Tag: leafTags[u.kinds%len(leafTags)], Self: true, N: p.nA})
+		P = append(P, Item{K: "once", M: u.id(), Tag: leafTags[u.kinds%len(leafTags)], Self: true, N: p.nA, Sp: (u.sp + u.kinds - 1) % len(spellings)})
 	}
 	P = append(P, Item{K: "for", M: u.id(), N: 3, Kids: []Item{{K: "if", M: u.id(), Eq: 2, Kids: u.slot("s3", all)}}})
 	P = append(P, Item{K: "div", M: u.id(), Kids: u.slot("s4", all)})
@@ -1037,7 +1051,7 @@ func (g *gen) items(label string, comp, depth int, inLoop bool, max int) []Item 
 				continue
 			}
 			g.budget--
-			it := Item{K: "once", M: g.id()}
+			it := Item{K: "once", M: g.id(), Sp: rapid.SampledFrom([]int{0, 0, 1, 1, 2, 2, 3, 4}).Draw(g.t, l+"sp")}
 			shape := rapid.IntRange(0, 9).Draw(g.t, l+"shape")
 			switch {
 			case shape == 0: // v-for on the marked element itself
@@ -1097,7 +1111,7 @@ func genCase() func(t *rapid.T) Case {
 				l.Doc = true
 				if g.budget > 0 && rapid.Bool().Draw(t, "head") {
 					g.budget--
-					l.Head = []Item{{K: "once", M: g.id(), Tag: rapid.SampledFrom([]string{"style", "script"}).Draw(t, "headtag")}}
+					l.Head = []Item{{K: "once", M: g.id(), Tag: rapid.SampledFrom([]string{"style", "script"}).Draw(t, "headtag"), Sp: rapid.IntRange(0, len(spellings)-1).Draw(t, "headsp")}}
 				}
 			}
 			l.Before = g.items("lb"+chain[i], -1, 1, false, 2)
@@ -1108,7 +1122,7 @@ func genCase() func(t *rapid.T) Case {
 			l := Layout{Doc: rapid.Bool().Draw(t, "basedoc")}
 			if l.Doc && g.budget > 0 && rapid.Bool().Draw(t, "basehead") {
 				g.budget--
-				l.Head = []Item{{K: "once", M: g.id(), Tag: rapid.SampledFrom([]string{"style", "script"}).Draw(t, "baseheadtag")}}
+				l.Head = []Item{{K: "once", M: g.id(), Tag: rapid.SampledFrom([]string{"style", "script"}).Draw(t, "baseheadtag"), Sp: rapid.IntRange(0, len(spellings)-1).Draw(t, "baseheadsp")}}
 			}
 			l.After = g.items("base", -1, 1, false, 2)
 			c.Layouts["base"] = l
@@ -1190,7 +1204,7 @@ func TestProp(t *testing.T) {
 	shard, shards := run.Shard()
 	// exhaustive: every choice of 1..k slots of the universe site x parameter sets x entry histories
 	params := []uparams{
-		{2, 2, 2, "none"}, {0, 1, 3, "l1"}, {3, 0, 1, "l1-l2"}, {1, 3, 2, "base"}, {3, 2, 1, "none"}, {2, 1, 2, "l1-l2"},
+		{2, 2, 2, "none", 0}, {0, 1, 3, "l1", 1}, {3, 0, 1, "l1-l2", 2}, {1, 3, 2, "base", 3}, {3, 2, 1, "none", 4}, {2, 1, 2, "l1-l2", 1},
 	}
 	maxFill := 2
 	if run.Thorough() {
@@ -1198,7 +1212,7 @@ func TestProp(t *testing.T) {
 		params = nil
 		for _, ch := range []string{"none", "l1", "l1-l2", "base"} {
 			for _, n := range [][3]int{{2, 2, 2}, {0, 1, 3}, {3, 0, 1}, {1, 3, 2}} {
-				params = append(params, uparams{n[0], n[1], n[2], ch})
+				params = append(params, uparams{n[0], n[1], n[2], ch, len(params) % len(spellings)})
 			}
 		}
 	}
